@@ -2896,6 +2896,7 @@ impl Interpreter {
             saved_registers,
             saved_call_stack,
             saved_try_stack,
+            saved_env_stack,
             chunk,
             yield_result_register,
             closure,
@@ -2912,6 +2913,7 @@ impl Interpreter {
                 state.saved_registers.clone(),
                 state.saved_call_stack.clone(),
                 state.saved_try_stack.clone(),
+                state.saved_env_stack.clone(),
                 state.chunk.clone(),
                 state.yield_result_register,
                 state.closure.clone(),
@@ -2922,8 +2924,11 @@ impl Interpreter {
             )
         };
 
-        // Save current environment
+        // Save current environment, and how many scope guards belong to the caller: the block
+        // scopes the generator has open when it yields (or dies) are re-entered on resume,
+        // their guards must not pile up on the interpreter in between
         let saved_env = self.env.cheap_clone();
+        let guard_depth = self.env_guards.len();
 
         // For first call, create a new function environment from the closure
         // For subsequent calls, use the saved current environment (which may include block scopes)
@@ -2994,6 +2999,7 @@ impl Interpreter {
                     // Generator completed normally
                     gen_state.borrow_mut().status = GeneratorStatus::Completed;
                     self.env = saved_env;
+                    self.env_guards.truncate(guard_depth);
                     Ok(builtins::create_generator_result(self, guarded.value, true))
                 }
                 VmResult::Yield(yield_result) => {
@@ -3004,11 +3010,14 @@ impl Interpreter {
                         state.saved_registers = yield_result.state.registers;
                         state.saved_call_stack = yield_result.state.frames;
                         state.saved_try_stack = yield_result.state.try_stack;
+                        state.saved_env_stack = yield_result.state.saved_env_stack;
+                        state.saved_pending_completion = yield_result.state.pending_completion;
                         state.yield_result_register = Some(yield_result.resume_register);
                         // Save current environment (may include block scopes)
                         state.current_env = Some(self.env.cheap_clone());
                     }
                     self.env = saved_env;
+                    self.env_guards.truncate(guard_depth);
                     Ok(builtins::create_generator_result(
                         self,
                         yield_result.value.value, // Extract JsValue from Guarded
@@ -3024,11 +3033,14 @@ impl Interpreter {
                         state.saved_registers = yield_star_result.state.registers;
                         state.saved_call_stack = yield_star_result.state.frames;
                         state.saved_try_stack = yield_star_result.state.try_stack;
+                        state.saved_env_stack = yield_star_result.state.saved_env_stack;
+                        state.saved_pending_completion = yield_star_result.state.pending_completion;
                         state.yield_result_register = Some(yield_star_result.resume_register);
                         // Save current environment (may include block scopes)
                         state.current_env = Some(self.env.cheap_clone());
                     }
                     // Delegate to the iterable - get its iterator and next value
+                    self.env_guards.truncate(guard_depth);
                     self.start_yield_star_delegation(
                         gen_state,
                         yield_star_result.iterable.value, // Extract JsValue from Guarded
@@ -3039,6 +3051,7 @@ impl Interpreter {
                     // Should not happen for generators
                     gen_state.borrow_mut().status = GeneratorStatus::Completed;
                     self.env = saved_env;
+                    self.env_guards.truncate(guard_depth);
                     Err(JsError::internal_error(
                         "Unexpected suspension in generator",
                     ))
@@ -3046,6 +3059,7 @@ impl Interpreter {
                 VmResult::Error(e) => {
                     gen_state.borrow_mut().status = GeneratorStatus::Completed;
                     self.env = saved_env;
+                    self.env_guards.truncate(guard_depth);
                     Err(e)
                 }
             }
@@ -3068,6 +3082,20 @@ impl Interpreter {
                 }
             }
 
+            // The block scopes that were open at the yield: their environments, one scope
+            // guard each (PopScope pops one), and a completion parked by try/finally
+            for env in &saved_env_stack {
+                state_guard.guard(env.cheap_clone());
+                let scope_guard = self.heap.create_guard();
+                scope_guard.guard(self.env.cheap_clone());
+                self.push_env_guard(scope_guard);
+            }
+            let pending_completion = gen_state
+                .borrow_mut()
+                .saved_pending_completion
+                .take()
+                .map(|pending| pending.duplicate(&state_guard));
+
             let saved_state = bytecode_vm::SavedVmState {
                 frames: saved_call_stack,
                 ip: saved_ip,
@@ -3079,8 +3107,8 @@ impl Interpreter {
                 new_target: JsValue::Undefined,
                 trampoline_stack: Vec::new(), // Generators run at top level
                 this_value: this_value.clone(),
-                saved_env_stack: Vec::new(), // the generator's current environment is kept in gen_state
-                pending_completion: None,
+                saved_env_stack,
+                pending_completion,
             };
 
             // Create guard for the VM registers
@@ -3096,6 +3124,7 @@ impl Interpreter {
                     // No exception handler found, propagate the error
                     gen_state.borrow_mut().status = GeneratorStatus::Completed;
                     self.env = saved_env;
+                    self.env_guards.truncate(guard_depth);
                     let guarded = Guarded::from_value(exception, &self.heap);
                     return Err(JsError::ThrownValue { guarded });
                 }
@@ -3111,6 +3140,7 @@ impl Interpreter {
                 VmResult::Complete(guarded) => {
                     gen_state.borrow_mut().status = GeneratorStatus::Completed;
                     self.env = saved_env;
+                    self.env_guards.truncate(guard_depth);
                     Ok(builtins::create_generator_result(self, guarded.value, true))
                 }
                 VmResult::Yield(yield_result) => {
@@ -3121,11 +3151,14 @@ impl Interpreter {
                         state.saved_registers = yield_result.state.registers;
                         state.saved_call_stack = yield_result.state.frames;
                         state.saved_try_stack = yield_result.state.try_stack;
+                        state.saved_env_stack = yield_result.state.saved_env_stack;
+                        state.saved_pending_completion = yield_result.state.pending_completion;
                         state.yield_result_register = Some(yield_result.resume_register);
                         // Save current environment (may include block scopes)
                         state.current_env = Some(self.env.cheap_clone());
                     }
                     self.env = saved_env;
+                    self.env_guards.truncate(guard_depth);
                     Ok(builtins::create_generator_result(
                         self,
                         yield_result.value.value, // Extract JsValue from Guarded
@@ -3140,10 +3173,13 @@ impl Interpreter {
                         state.saved_registers = yield_star_result.state.registers;
                         state.saved_call_stack = yield_star_result.state.frames;
                         state.saved_try_stack = yield_star_result.state.try_stack;
+                        state.saved_env_stack = yield_star_result.state.saved_env_stack;
+                        state.saved_pending_completion = yield_star_result.state.pending_completion;
                         state.yield_result_register = Some(yield_star_result.resume_register);
                         // Save current environment (may include block scopes)
                         state.current_env = Some(self.env.cheap_clone());
                     }
+                    self.env_guards.truncate(guard_depth);
                     self.start_yield_star_delegation(
                         gen_state,
                         yield_star_result.iterable.value, // Extract JsValue from Guarded
@@ -3153,6 +3189,7 @@ impl Interpreter {
                 VmResult::Suspend(_) | VmResult::SuspendForOrder(_) => {
                     gen_state.borrow_mut().status = GeneratorStatus::Completed;
                     self.env = saved_env;
+                    self.env_guards.truncate(guard_depth);
                     Err(JsError::internal_error(
                         "Unexpected suspension in generator",
                     ))
@@ -3160,6 +3197,7 @@ impl Interpreter {
                 VmResult::Error(e) => {
                     gen_state.borrow_mut().status = GeneratorStatus::Completed;
                     self.env = saved_env;
+                    self.env_guards.truncate(guard_depth);
                     Err(e)
                 }
             }
@@ -4254,6 +4292,8 @@ impl Interpreter {
             saved_registers: Vec::new(),
             saved_call_stack: Vec::new(),
             saved_try_stack: Vec::new(),
+            saved_env_stack: Vec::new(),
+            saved_pending_completion: None,
             yield_result_register: None,
             func_env: None,           // Will be created on first call to next()
             current_env: None,        // Will be saved at each yield point
@@ -4297,6 +4337,8 @@ impl Interpreter {
             saved_registers: Vec::new(),
             saved_call_stack: Vec::new(),
             saved_try_stack: Vec::new(),
+            saved_env_stack: Vec::new(),
+            saved_pending_completion: None,
             yield_result_register: None,
             func_env: None,           // Will be created on first call to next()
             current_env: None,        // Will be saved at each yield point
